@@ -886,3 +886,338 @@ func init() {
 		c.Import(Registry["C05"].Run, "C05", []string{"R1"}, "viaC05")
 	})
 }
+
+// ---- second batch of round-2 rules ------------------------------------------------------------------------------
+func init() {
+	extend("C05", "(R2b) after a region error a batch is kept (re-sent whole to the re-located region) only when EVERY key of the batch is in that region.", c05Relocate)
+	extend("C06", "(R5b) every key recorded by a finished aggressive-locking stage is flagged as locked in the buffer (so commit/rollback releases it).", c06DoneAggressive)
+	extend("C12", "(R5) commitLock / rollbackLock are applied only to a lock whose start ts is the transaction's; (R6) when a prewrite replaces a pessimistic lock, ttl and min-commit-ts are kept independently (the min-commit-ts comparison does not depend on the ttl comparison); (R7) the latest-version point-get shortcut of mvccLock.check is taken only for locks that block reads.", c12Round2)
+	extend("C13", "(R6) the commit-wait constraint of a transaction is only ever raised.", c13CommitWait)
+	extend("C17", "(R6) recycle: in every iteration the predecessor pointer either advances to the current node or the current node was unlinked; (R7) Commit releases the local latch only after the commit ts was recorded on it; (R8) tsoSub is the signed difference t1 − t2.", c17Round2)
+	extend("C18", "(R7) every entry taken from the priority queue is placed into a request group unless it is cancelled; (R8) the send loop's fetch returns without a head entry only when the connection is idle/closed or the channel yielded nil.", c18Round2)
+}
+
+func c05Relocate(c *core.Ctx) {
+	a := rule(c, "C05.R2b")
+	fn := a.fn(pkgSnap, "batchKeys", "relocate")
+	if fn == nil {
+		return
+	}
+	n := 0
+	for _, ci := range core.FindCalls(fn, core.CallsMethodNamed("Contains", "")) {
+		n++
+		arg := core.Strip(ci.Common().Args[1])
+		// b.keys[i] with i a loop variable
+		okk := false
+		if ld, ok := arg.(*ssa.UnOp); ok {
+			if ia, ok := ld.X.(*ssa.IndexAddr); ok && descHas(c, ia.X, "fld(batchKeys.keys,") {
+				idx := core.Strip(ia.Index)
+				if bo, ok := idx.(*ssa.BinOp); ok && bo.Op == token.ADD {
+					idx = core.Strip(bo.X)
+				}
+				if ph, ok := idx.(*ssa.Phi); ok {
+					// a counting loop: one edge is the φ itself plus one
+					for _, e := range ph.Edges {
+						if bo, ok := core.Strip(e).(*ssa.BinOp); ok && bo.Op == token.ADD && core.Strip(bo.X) == ssa.Value(ph) {
+							okk = true
+						}
+					}
+				}
+			}
+		}
+		a.check(okk, fname(fn)+" checks every key of the batch", ci, "", "after a region error only some keys of the batch (e.g. the last one) are tested against the re-located region: an unsorted batch is re-sent whole to a region that does not contain all of its keys")
+	}
+	a.checkAt(n == 1, fname(fn)+" containment test", a.fnPos(fn), "", "containment test not found")
+	for _, st := range storesToFieldNamed(fn, "batchKeys.region") {
+		g, w := core.MustPassBefore(fn, st, isCallNamed("Contains"))
+		// a single-key batch needs no test
+		if !g {
+			g, w = guardedByAny(c, fn, st, "F:(const(1) < len(fld(batchKeys.keys,recv)))", "T:(len(fld(batchKeys.keys,recv)) < const(2))", "F:(*< len(fld(batchKeys.keys,recv)))")
+		}
+		a.check(g, fname(fn)+" keeps the batch only after the containment test", st, "", a.w(w))
+	}
+}
+
+func c06DoneAggressive(c *core.Ctx) {
+	p := c.P
+	a := rule(c, "C06.R5b")
+	fn := a.fn(pkgTxn, "KVTxn", "DoneAggressiveLocking")
+	if fn == nil {
+		return
+	}
+	setLocked := constInt(c, core.ModPath+"/kv", "SetKeyLocked")
+	_ = p
+	n := 0
+	for _, ci := range core.FindCalls(fn, core.CallsMethodNamed("UpdateFlags", "")) {
+		args := ci.Common().Args
+		ops := core.Strip(args[len(args)-1])
+		sl, ok := ops.(*ssa.Slice)
+		if !ok {
+			continue
+		}
+		al, ok := sl.X.(*ssa.Alloc)
+		if !ok {
+			continue
+		}
+		n++
+		has := false
+		for _, ref := range *al.Referrers() {
+			ia, ok := ref.(*ssa.IndexAddr)
+			if !ok {
+				continue
+			}
+			for _, r2 := range *ia.Referrers() {
+				if st, ok := r2.(*ssa.Store); ok {
+					if cst, ok := asConst(st.Val); ok && cst.Value != nil && cst.Int64() == setLocked {
+						has = true
+					}
+				}
+			}
+		}
+		a.check(has, fname(fn)+" flags the key as locked", ci, "", "a key locked during the aggressive-locking stage is recorded in the buffer without the Locked flag: neither commit nor rollback will release its pessimistic lock")
+	}
+	a.checkAt(n >= 1, fname(fn)+" records the locked keys", a.fnPos(fn), "", "flag update not found")
+}
+
+func c12Round2(c *core.Ctx) {
+	p := c.P
+	pv := p.Prov()
+	{
+		a := rule(c, "C12.R5")
+		n := 0
+		for _, fn := range pkgFuncs(c, pkgMock) {
+			if strings.HasSuffix(p.Fset.Position(fn.Pos()).Filename, "_test.go") {
+				continue
+			}
+			for _, ci := range core.FindCalls(fn, func(cc *ssa.CallCommon) bool {
+				f := cc.StaticCallee()
+				return f != nil && (f.Name() == "rollbackLock" || f.Name() == "commitLock") && f.Pkg == p.Pkg(pkgMock)
+			}) {
+				n++
+				idx := 2
+				if ci.Common().StaticCallee().Name() == "commitLock" {
+					idx = 3
+				}
+				ds := pv.Desc(ci.Common().Args[idx])
+				okk := true
+				why := ""
+				for _, d := range ds {
+					if strings.Contains(d, "fld(mvccLock.startTS,") {
+						continue // the found lock's own start ts
+					}
+					g, w := guardedByAny(c, fn, ci, "T:(fld(mvccLock.startTS,*) == "+d+")", "T:("+d+" == fld(mvccLock.startTS,*))")
+					if !g {
+						okk = false
+						why = a.w(w)
+					}
+				}
+				a.check(okk, fname(fn)+" "+ci.Common().StaticCallee().Name()+" only on the transaction's own lock", ci, strings.Join(ds, "|"), "a lock record is committed / rolled back (deleted) without checking that it belongs to the transaction being resolved: another transaction's lock on the key is removed: "+why)
+			}
+		}
+		a.checkAt(n >= 6, "commitLock/rollbackLock call sites", "-", fmt.Sprint(n), "call sites not found")
+	}
+	{
+		a := rule(c, "C12.R6")
+		fn := a.fn(pkgMock, "", "prewriteMutation")
+		if fn != nil {
+			var ttlIf, minIf *ssa.If
+			core.Instrs(fn, func(in ssa.Instruction) {
+				i, ok := in.(*ssa.If)
+				if !ok {
+					return
+				}
+				v, _ := core.CondOf(i)
+				at, _ := p.CanonAtom(v)
+				if strings.Contains(at, "fld(mvccLock.ttl,") && strings.Contains(at, " < ") {
+					ttlIf = i
+				}
+				if strings.Contains(at, "fld(mvccLock.minCommitTS,") && strings.Contains(at, " < ") {
+					minIf = i
+				}
+			})
+			if ttlIf == nil || minIf == nil {
+				a.violAt(fname(fn)+" keeps ttl and min-commit-ts of the replaced pessimistic lock", a.fnPos(fn), "the keep-the-larger comparisons were not found")
+			} else {
+				for k := 0; k < 2; k++ {
+					b := ttlIf.Block().Succs[k]
+					found, _, _ := reachFromBlock(fn, b, nil, nil, func(in ssa.Instruction) bool { return in == ssa.Instruction(minIf) })
+					a.check(found, fname(fn)+fmt.Sprintf(" min-commit-ts is kept whatever the ttl comparison says (edge %d)", k), ttlIf, "", "the pushed min-commit-ts of the replaced pessimistic lock is kept only when the ttl comparison goes one way: otherwise a commit below the pushed timestamp is accepted")
+				}
+			}
+		}
+	}
+	guardTable(c, "C12.R7", []gRow{
+		{Fn: [3]string{pkgMock, "mvccLock", "check"}, Target: "ret:(fld(mvccLock.startTS,recv) - const(1)),nil", Facts: []string{
+			"F:(const(2) == fld(mvccLock.op,recv))", "F:(const(5) == fld(mvccLock.op,recv))", "F:(param#0 < fld(mvccLock.startTS,recv))"}, Min: 1,
+			Why: "the 'read just below the primary lock' shortcut applies only to locks that block reads (not Op_Lock / pessimistic locks, not locks younger than the read)"},
+	})
+}
+
+func c13CommitWait(c *core.Ctx) {
+	a := rule(c, "C13.R6")
+	f := a.field(pkgTxn, "KVTxn", "commitWaitUntilTSO")
+	if f == nil {
+		return
+	}
+	n := 0
+	for _, w := range c.P.WritersOf(f) {
+		if isProbe(c, w.Fn) || w.Val == nil {
+			continue
+		}
+		if cst, ok := asConst(w.Val); ok && cst.Value != nil && cst.Value.String() == "0" && strings.Contains(fname(w.Fn), "newTiKVTxn") {
+			continue
+		}
+		n++
+		d := strings.Join(c.P.Prov().Desc(w.Val), "|")
+		g, ww := guardedByAny(c, w.Fn, w.Instr, "T:(fld(KVTxn.commitWaitUntilTSO,recv) < "+d+")")
+		a.check(g, fname(w.Fn)+" raises the commit-wait constraint only", w.Instr, d, "a later, smaller commit-wait constraint overwrites an earlier larger one: the commit ts need not exceed the stronger constraint any more: "+a.w(ww))
+	}
+	a.checkAt(n >= 1, "KVTxn.commitWaitUntilTSO writers", "-", fmt.Sprint(n), "no writer found")
+}
+
+func c17Round2(c *core.Ctx) {
+	p := c.P
+	{
+		a := rule(c, "C17.R6")
+		fn := a.fn("internal/latch", "latch", "recycle")
+		if fn != nil {
+			isUnlink := isStoreTo(c, "node.next", "")
+			// the loop-carried predecessor pointer: a φ of *node type whose entry value is the fake head (an Alloc)
+			var head *ssa.Phi
+			core.Instrs(fn, func(in ssa.Instruction) {
+				ph, ok := in.(*ssa.Phi)
+				if !ok || head != nil {
+					return
+				}
+				for _, e := range ph.Edges {
+					if _, ok := core.Strip(e).(*ssa.Alloc); ok {
+						head = ph
+					}
+				}
+			})
+			if head == nil {
+				a.violAt(fname(fn)+" predecessor pointer", a.fnPos(fn), "loop-carried predecessor not found")
+			} else {
+				// walk the φ-closure of the back-edge value; an edge that carries the unchanged predecessor must come from a path that unlinked
+				seen := map[*ssa.Phi]bool{}
+				bad := 0
+				var walk func(ph *ssa.Phi)
+				walk = func(ph *ssa.Phi) {
+					if seen[ph] {
+						return
+					}
+					seen[ph] = true
+					for i, e := range ph.Edges {
+						ev := core.Strip(e)
+						if p2, ok := ev.(*ssa.Phi); ok && p2 != head {
+							walk(p2)
+							continue
+						}
+						if ev != ssa.Value(head) {
+							continue
+						}
+						pred := ph.Block().Preds[i]
+						last := pred.Instrs[len(pred.Instrs)-1]
+						q := &core.Q{Fn: fn, NoPass: isUnlink}
+						if found, w, _ := q.ReachFromBlock(head.Block(), func(in ssa.Instruction) bool { return in == last }); found {
+							bad++
+							a.viol(fname(fn)+" predecessor advances unless the node was unlinked", last, "an iteration can end with the predecessor pointer unchanged although the current node stays in the list: a later unlink then also drops the nodes in between (a held latch node disappears and a second transaction acquires the key): "+a.w(w))
+						}
+					}
+				}
+				for i, e := range head.Edges {
+					_ = i
+					if p2, ok := core.Strip(e).(*ssa.Phi); ok {
+						walk(p2)
+					}
+				}
+				if bad == 0 {
+					a.okAt(fname(fn)+" predecessor advances unless the node was unlinked", a.fnPos(fn), "")
+				}
+			}
+		}
+	}
+	{
+		a := rule(c, "C17.R7")
+		fn := a.fn(pkgTxn, "KVTxn", "Commit")
+		if fn != nil {
+			sets := core.FindCalls(fn, core.CallsMethodNamed("SetCommitTS", ""))
+			a.checkAt(len(sets) >= 1, fname(fn)+" records the commit ts on the latch lock", a.fnPos(fn), "", "SetCommitTS not found")
+			for _, u := range core.FindCalls(fn, core.CallsMethodNamed("UnLock", "")) {
+				if _, isDefer := u.(*ssa.Defer); isDefer {
+					continue
+				}
+				q := &core.Q{Fn: fn}
+				for _, s := range sets {
+					found, w, _ := q.Reach(u, func(in ssa.Instruction) bool { return in == ssa.Instruction(s) })
+					a.check(!found, fname(fn)+" latch released only after the commit ts was recorded", u, "", "the local latch is released before SetCommitTS: the scheduler may hand the keys over with commit ts 0, so a concurrent older transaction on the same key is not recognised as stale: "+a.w(w))
+				}
+			}
+		}
+	}
+	{
+		a := rule(c, "C17.R8")
+		fn := a.fn("internal/latch", "", "tsoSub")
+		if fn != nil {
+			for _, r := range returnsOf(fn) {
+				okk := false
+				if cl, ok := core.Strip(r.Results[0]).(*ssa.Call); ok && cl.Call.StaticCallee() != nil && cl.Call.StaticCallee().Name() == "Sub" && len(cl.Call.Args) == 2 {
+					d0 := strings.Join(p.Prov().Desc(cl.Call.Args[0]), "|")
+					d1 := strings.Join(p.Prov().Desc(cl.Call.Args[1]), "|")
+					t0, ok0 := core.Strip(cl.Call.Args[0]).(*ssa.Call)
+					t1, ok1 := core.Strip(cl.Call.Args[1]).(*ssa.Call)
+					if ok0 && ok1 && strings.Contains(d0, "GetTimeFromTS") && strings.Contains(d1, "GetTimeFromTS") {
+						a0 := strings.Join(p.Prov().Desc(t0.Call.Args[0]), "|")
+						a1 := strings.Join(p.Prov().Desc(t1.Call.Args[0]), "|")
+						okk = a0 == "param#0" && a1 == "param#1"
+					}
+				}
+				a.check(okk, fname(fn)+" = time(ts1) − time(ts2), signed", r, "", "tsoSub no longer returns the signed difference of its arguments on every path (e.g. an absolute distance): nodes committed after the requester started look expired and are recycled, the requester is not flagged stale")
+			}
+		}
+	}
+}
+
+func c18Round2(c *core.Ctx) {
+	{
+		a := rule(c, "C18.R7")
+		fn := a.fn(pkgClient, "batchCommandsBuilder", "buildWithLimit")
+		if fn != nil {
+			n := 0
+			for _, f := range core.FuncsIn(fn) {
+				core.Instrs(f, func(in ssa.Instruction) {
+					ta, ok := in.(*ssa.TypeAssert)
+					if !ok || !strings.HasSuffix(ta.AssertedType.String(), "client.batchCommandsEntry") {
+						return
+					}
+					n++
+					okk, w, hit := condMust(c, f, in, func(x ssa.Instruction) bool {
+						if x == in {
+							return true // next iteration
+						}
+						_, isRet := x.(*ssa.Return)
+						return isRet
+					}, isStoreTo(c, "batchCommandsRequestGroup.entries", ""), []string{"T:call((*internal/client.batchCommandsEntry).isCanceled)#0*"})
+					if okk {
+						a.ok(fname(f)+" every taken entry is placed into a group", in, "")
+					} else {
+						a.viol(fname(f)+" every taken entry is placed into a group", hit, "an entry already removed from the priority queue can be passed over without being put into a request group (and it is not cancelled): it is neither sent nor re-queued nor failed — the caller waits for its time-out, an async callback is never invoked: "+a.w(w))
+					}
+				})
+			}
+			a.checkAt(n == 1, fname(fn)+" entry loop", a.fnPos(fn), "", "entry loop not found")
+		}
+	}
+	{
+		a := rule(c, "C18.R8")
+		fn := a.fn(pkgClient, "batchConn", "fetchAllPendingRequests")
+		if fn != nil {
+			okk, w, hit := condMust(c, fn, nil, core.IsReturn, isCallNamed("push"), []string{"F:(const(0) == select#0)", "T:(nil == select#2)"})
+			if okk {
+				a.okAt(fname(fn)+" returns empty-handed only when idle/closed/nil", a.fnPos(fn), "")
+			} else {
+				a.viol(fname(fn)+" returns empty-handed only when idle/closed/nil", hit, "the fetch can return without pushing a head entry although one was received (e.g. because it is already cancelled): the send loop reads an empty builder as 'connection closed' and exits — every later request to this store times out: "+a.w(w))
+			}
+		}
+	}
+}
